@@ -213,8 +213,8 @@ def conds(tier):
     for p in (1, 2, 3):
         ks = [P("k%d" % i, "int", 0, 3 if p == 3 else len(KINDS)) for i in range(1, p + 1)]
         if p == 3:
-            avals = [P("a%d" % i, "int", 0, 3 if q else 4) for i in range(1, p + 1)]
-            size = P("size", "int", 0, 5 if q else 8)
+            avals = [P("a%d" % i, "int", 0, 3) for i in range(1, p + 1)]
+            size = P("size", "int", 0, 5 if q else 7)
         else:
             avals = [P("a%d" % i, "int", 0, amax) for i in range(1, p + 1)]
             size = P("size", "int", 0, smax + 1)
